@@ -35,7 +35,7 @@ DOf(r) == LET ds == Defaults[r.di] IN [k \in {ds[i].key : i \in DOMAIN ds} |-> d
 
 (* ------------------------------- C09 ---------------------------------- *)
 Exp(r) == LET b == BOf(r)["Root"] S == SOf(r) IN
-          Run(r.lang, S, DOf(r), "Root", S["Root"], b.ctor, b.opts, r.seq, [st |-> InitSt(DOf(r), "Root"), raised |-> <<>>])
+          Run(r.lang, S, DOf(r), "Root", S["Root"], b.ctor, b.opts, r.seq, InitAcc(DOf(r), "Root"))
 SeqViolated(r) ==
   LET e     == Exp(r)
       fails == BuildFails(r.lang, SOf(r), SOf(r)["Root"], e.st)
@@ -48,8 +48,10 @@ SeqViolated(r) ==
         \/ (r.judge.build /\ r.real.hasVerdict /\ ~fails /\ r.real.fails)
       sameRaised == \A i \in DOMAIN r.real.raised : e.raised[i] = r.real.raised[i]
       \* the object differs from the default exactly at the options' targets (the expected object IS the default
-      \* with exactly those assignments), compared once the calls themselves behaved as expected
-      exact == (r.real.hasObj /\ sameRaised) =>
+      \* with exactly those assignments); judged for sequences whose arguments all satisfy the schema (after a
+      \* constraint-violating argument / a failing nested builder the property only demands the report)
+      allGood == \A i \in DOMAIN e.bad : ~e.bad[i]
+      exact == (r.real.hasObj /\ sameRaised /\ allGood) =>
                  (SameObj(r.real.obj, e.st.obj) /\ (r.real.hasBuilt => SameObj(r.real.built, e.st.obj)))
       consts == r.real.hasObj => ConstsOK(SOf(r), SOf(r)["Root"], r.real.obj)
   IN   (IF notReported THEN {"NotReported"} ELSE {})
